@@ -390,7 +390,7 @@ func (w *world) runOp(op opSpec) {
 		if op.fault == "writer" && i == op.faultAt && !c.hasPayload() {
 			faultHere = false
 		}
-		run.Case(fmt.Sprintf("%s|%s|size=%d|resp2=%v|rbuf=%d|fault=%s@%v|k=%s|plain=%v|pos=%d/%d|broken=%v", key, c.kind, sizeClass(len(c.payload)), w.resp2, w.rbuf, op.fault, faultHere, kClass(op.k, w.encodedLen(c)), op.plainWriter, posClass(i, len(op.cmds)), lenClass(len(op.cmds)), broken), true)
+		run.Case(fmt.Sprintf("%s|%s|size=%d|resp2=%v|rbuf=%d|fault=%s@%v|k=%s|plain=%v|pos=%s/%d|broken=%v", key, c.kind, sizeClass(len(c.payload)), w.resp2, w.rbuf, op.fault, faultHere, kClass(op.k, w.encodedLen(c)), op.plainWriter, posClass(i, len(op.cmds)), lenClass(len(op.cmds)), broken), true)
 		if int64(len(r.got)) != r.n {
 			run.Violation("n-differs-from-bytes-written", key+"|"+c.kind, wit(i, nil))
 		}
@@ -945,7 +945,7 @@ func TestC29(t *testing.T) {
 	run.Assume("fakeredis logs which connection received which command and which connections are open", "writers honour the io.Writer contract (a short write comes with an error)")
 	rueidis.VerifSetQueueType("flowbuffer")
 	defer rueidis.VerifSetQueueType("")
-	n := run.N(400, 12000)
+	n := run.N(700, 12000)
 	base := run.Rand("cases").Int63()
 	for i := 0; i < n; i++ {
 		runCase(t, run, i, base+int64(i)*7919, i%97 == 5)
